@@ -57,7 +57,13 @@ pub fn cause_op2(g: &mut G, id: Id, k: KindTag) -> Option<Op> {
                 Some(Op::Wake(t))
             }
         }
-        KindTag::Stream => Some(if g.rng.chance(1, 8) { Op::StreamEnd(id) } else { Op::StreamPush(id) }),
+        KindTag::Stream => Some(if g.rng.chance(1, 8) {
+            Op::StreamEnd(id)
+        } else if g.rng.chance(1, 25) {
+            Op::StreamPushMany(id, *g.rng.pick(&[1023u32, 1024, 1025, 2048, 2050, 3000]), g.rng.chance(1, 2))
+        } else {
+            Op::StreamPush(id)
+        }),
         KindTag::Composite => Some(match g.rng.below(10) {
             0 | 1 => Op::DropChildPing(id, g.rng.below(4) as u32),
             2 | 3 => Op::PeerWriteChild(id, g.rng.below(4) as u32, 3),
